@@ -322,7 +322,11 @@ def seqCutList (c whole : String) : String :=
 (`none` = no frame at the end of the input counts as an error), whatever stood before it and however the sequence was
 cut.  A wrong answer behind an erroneous document is the decoder's state leaking from one document into the next. -/
 def seqVerdictOne (valid : List Bool) (ones : List String) (l : List String) : Option String :=
-  if l.length != ones.length then some "decoder-frame-count" else
+  if l.length != ones.length then
+    -- results missing (or too many): the stream stalled or lost its framing.  Behind a document that is not UTF-8 this
+    -- is the leaked state again (an empty frame met by a stale parser answers `None` and the decoder waits for input)
+    some (if (valid.take (l.length + 1)).any (!·) then "decoder-state-leaked-after-bad-utf8" else "decoder-frame-count")
+  else
   let rec go (i : Nat) (vs : List Bool) (os ls : List String) (badUtf8 err : Bool) : Option String :=
     match vs, os, ls with
     | v :: vs', o :: os', r :: ls' =>
